@@ -93,6 +93,8 @@ pub struct Cfg {
 
     // broker model
     pub connack: ConnackTemplate,
+    /// Receive Maximum announced on connection i (index i-1, last entry repeats); empty = the template's value everywhere
+    pub receive_maximum_by_conn: Vec<Option<u16>>,
     /// session-present answers the broker may give when it holds a session for the client
     pub session_answers: Vec<bool>,
     /// packets the broker may send on its own (PUBLISH / PUBREL)
@@ -136,6 +138,7 @@ impl Cfg {
             connect_timeout_ms: 10_000,
             clock: Clock::Prompt,
             connack: ConnackTemplate::default(),
+            receive_maximum_by_conn: Vec::new(),
             session_answers: vec![true],
             inbound: Vec::new(),
             max_inbound: 0,
@@ -152,6 +155,10 @@ impl Cfg {
 
     pub fn cap_for(&self, connection: usize) -> usize {
         if self.caps.is_empty() { self.cap } else { self.caps[(connection.max(1) - 1).min(self.caps.len() - 1)] }
+    }
+
+    pub fn receive_maximum_for(&self, connection: usize) -> Option<u16> {
+        if self.receive_maximum_by_conn.is_empty() { self.connack.receive_maximum } else { self.receive_maximum_by_conn[(connection.max(1) - 1).min(self.receive_maximum_by_conn.len() - 1)] }
     }
 
     pub fn connect_options(&self) -> ConnectOptions {
@@ -179,9 +186,9 @@ impl Cfg {
     }
 
     pub fn describe(&self) -> String {
-        format!("{}[{}] v={} offline={:?} drain1={} retries={:?} resolver={:?} ka={:?} ping_to={:?} rejoin={:?} cid={:?} cap={}{:?} clock={:?} connack={:?} submits={:?} max_submits={} max_conns={} budget={} depth={}",
+        format!("{}[{}] v={} offline={:?} drain1={} retries={:?} resolver={:?} ka={:?} ping_to={:?} rejoin={:?} cid={:?} cap={}{:?} clock={:?} connack={:?} rm_by_conn={:?} submits={:?} max_submits={} max_conns={} budget={} depth={}",
             self.family, self.name, if self.mqtt311 { "3.1.1" } else { "5" }, self.offline, self.one_at_a_time, self.max_retries, self.resolver, self.keep_alive,
-            self.ping_timeout, self.rejoin, self.client_id, self.cap, self.caps, self.clock, self.connack,
+            self.ping_timeout, self.rejoin, self.client_id, self.cap, self.caps, self.clock, self.connack, self.receive_maximum_by_conn,
             self.submits.iter().map(|s| s.label.clone()).collect::<Vec<_>>(), self.max_submits, self.max_conns, self.budget, self.max_depth)
     }
 }
